@@ -11,6 +11,7 @@ import os
 
 from lib import hir as H
 from lib import tables as T
+from lib import boolform as B
 from lib import c03_util as U
 
 SPEC = os.path.join(os.path.dirname(os.path.dirname(os.path.abspath(__file__))), "spec", "tiny_v2.json")
@@ -32,7 +33,7 @@ CLAIM = {
             "TinyLine::new (indentation strip, split at the separator), next/end/into_names/into_namespaces and the struct literals of "
             "read into every model field, and from every model field into its hole of the writer template, a cell passes only through "
             "selections, ownership/From/TryFrom/parse conversions (comments: escape/unescape) - any other call (trim, case change, "
-            "slicing, a helper that does not return its argument unchanged, `.map(path_fn)`) is reported with the call named. (R03.10) every writer loop over a map of the model emits a row for every entry (no dropping adaptor or mutation, no continue/break); (R03.2) the sort key is an injective view of the key fields (no case folding or other lossy function).",
+            "slicing, a helper that does not return its argument unchanged, `.map(path_fn)`) is reported with the call named. (R03.10) every writer loop over a map of the model emits a row for every entry (no dropping adaptor or mutation, no continue/break) and no row of the writer stands behind a successful early exit (`if <test> { return Ok(()) }`); (R03.2) the sort key is an injective view of the key fields (no case folding or other lossy function). (R03.1) the sort is executed whenever the loop is: no `if`/`match`/loop around the sort that is not around the loop as well (`if v.len() > 1` apart). (R03.6) comment-stored: in the comment helper only the test of the javadoc slot and error exits stand before `*javadoc = Some(text)` - every `c` row that is accepted is stored, whatever its text. (R03.4) the header test is compared as a boolean formula over `column == literal` atoms (truth table).",
     "note": "Not decided: the inverse law and the byte-identical fix-point for all contents (values of names/descriptors containing "
             "the separator, validity conversions, unicode), termination; the Display/FromStr/TryFrom impls a cell is converted by are "
             "taken to be mutually inverse; format options of a hole (width/fill) are not in the facts. Known findings: Mappings.javadoc is written but cannot be "
@@ -163,6 +164,8 @@ def describe_writer_row(q, cx, row, sep):
                 d["owner"] = U.role_str(r[0]) if r else "?"
             else:
                 d["problems"].append("row under a condition that is not `if let Some(..) = <field>`")
+        elif c[0] == "after-exit":
+            pass            # reported per row by R03.10 (written-unconditionally)
         else:
             d["problems"].append("row in unsupported context %s" % c[0])
     vs = row.variants()
@@ -374,43 +377,66 @@ def reader_header(q, cx, R):
                             ctxs.append((hfn, ids[0]))
                             if not out["ops"]:
                                 out["ops"] = RD.row_ops(hfn, hfn.root, ids[0])
-    # comparisons
+    # comparisons: the condition under which the header is rejected, as a boolean formula over the atoms `<column> == <literal>`
+    # (compared by truth table: `a != x || b != y`, `!(a == x && b == y)`, `if a == x && b == y { .. } else { bail }` are the same)
     for fn, hdr in ctxs:
-      for n in H.walk(fn.root):
-        if n.get("k") == "if":
-              c = H.peel(n["cond"], refs=False)
-              leaves = []
+        for n in H.walk(fn.root):
+            if n.get("k") != "if":
+                continue
 
-              def ors(e):
-                  e = H.peel(e, refs=False)
-                  if e.get("k") == "bin" and e["op"] == "||":
-                      ors(e["l"])
-                      ors(e["r"])
-                  else:
-                      leaves.append(e)
-              ors(c)
-              found = {}
-              good = True
-              for lf in leaves:
-                  if lf.get("k") == "bin" and lf["op"] == "!=":
-                      for a, b in ((lf["l"], lf["r"]), (lf["r"], lf["l"])):
-                          v = H.const_value(b)
-                          if not isinstance(v, str):
-                              continue
-                          a0 = H.peel(a, tries=True)
-                          if a0.get("k") == "field" and a0["name"] == "first_field" and H.local_of(a0["e"]) and H.local_of(a0["e"])[0] == hdr:
-                              found["tag"] = v
-                          else:
-                              ch = fn.trace(a)
-                              if ch.root[0] == "line" and ch.root[1] == "next" and not ch.hops:
-                                  found[ch.root[2]] = v
-                  else:
-                      good = False
-              if found:
-                  if not good:
-                      out["problems"].append("header condition is not a disjunction of `column != literal`")
-                  out["lits"] = found
-                  out["err_exit"] = H.is_err_exit(n["then"]) and "else" not in n
+            def atom(lf, fn=fn, hdr=hdr, depth=[0]):
+                if lf.get("k") == "path" and (lf.get("res") or {}).get("r") == "local" and lf.get("ty") == "bool" and depth[0] < 4:
+                    # `let ok = a == x && b == y; if !ok { bail }`: a bool local stands for its initialiser
+                    b_ = fn.binds.get(lf["res"]["id"])
+                    if b_ is not None and b_.origin[0] == "let" and not b_.path and "init" in b_.origin[1] and lf["res"]["id"] not in fn.reassigned():
+                        depth[0] += 1
+                        try:
+                            return B.formula(b_.origin[1]["init"], atom)
+                        finally:
+                            depth[0] -= 1
+                if lf.get("k") == "bin" and lf["op"] in ("==", "!="):
+                    for a, b in ((lf["l"], lf["r"]), (lf["r"], lf["l"])):
+                        v = H.const_value(b)
+                        if not isinstance(v, str):
+                            continue
+                        col = None
+                        a0 = H.peel(a, tries=True)
+                        if a0.get("k") == "mcall" and a0["name"] in ("as_str", "as_ref", "borrow", "deref", "clone", "to_owned", "to_string"):
+                            a0 = H.peel(a0["recv"], tries=True)
+                        if a0.get("k") == "field" and a0["name"] == "first_field" and H.local_of(a0["e"]) and H.local_of(a0["e"])[0] == hdr:
+                            col = "tag"
+                        else:
+                            ch = fn.trace(a)
+                            if ch.root[0] == "line" and ch.root[1] == "next" and not ch.hops:
+                                col = ch.root[2]
+                        if col is not None:
+                            at = ("atom", (col, v))
+                            return at if lf["op"] == "==" else ("not", at)
+                return None
+            f = B.formula(n["cond"], atom)
+            ats = B.atoms(f)
+            cols = [a for a in ats if isinstance(a, tuple)]
+            if not cols:
+                continue
+            then_err = H.is_err_exit(n["then"])
+            else_err = "else" in n and H.is_err_exit(n["else"])
+            if then_err and not else_err:
+                err_f = f
+            elif else_err and not then_err:
+                err_f = ("not", f)
+            else:
+                err_f = None
+            accept = None
+            for a in cols:
+                accept = ("atom", a) if accept is None else ("and", accept, ("atom", a))
+            good = err_f is not None and len(cols) == len(ats) and len(set(c for c, _ in cols)) == len(cols) \
+                and len(ats) <= 8 and B.equivalent(err_f, ("not", accept))[0]
+            if not good:
+                out["problems"].append("the header is not rejected exactly when one of `column == literal` fails: rejected when %s"
+                                       % (B.show(err_f) if err_f is not None else "<no error exit on either side of the test>"))
+            out["lits"] = {c: v for c, v in cols}
+            # the accepting side goes on with the function (no `else` next to a rejecting `then`, or the rejecting side is the `else`)
+            out["err_exit"] = err_f is not None and (("else" not in n) if then_err else True)
     fn, hdr = ctxs[0]
     for st in RD.struct_lits(fn, fn.root, ("MappingInfo",)):
         for f in st["fields"]:
@@ -466,9 +492,11 @@ def _complete_walk(R, fn, for_node, o, key):
 # ------------------------------------------------------------------------------------------------ R03.1 / R03.2
 def r03_1_2(q, R, cx):
     R.rule("R03.10", "complete walk: every writer loop over a map of the model emits a row for every entry - no filter/skip/take/.. between the map "
-                     "iteration and the loop, no retain/truncate/.. on the collected vector, no continue/break in the loop body")
+                     "iteration and the loop, no retain/truncate/.. on the collected vector, no continue/break in the loop body; no row of the "
+                     "writer is preceded by a successful early exit (return Ok / continue / break under a test of the content)")
     R.rule("R03.1", "every loop in tiny_v2::write (helpers inlined) that emits text while walking an IndexMap/HashMap walks a "
-                    "collection that was sorted after it was collected (order taint: map iteration -> sort -> write)")
+                    "collection that was sorted after it was collected (order taint: map iteration -> sort -> write); the sort is executed "
+                    "whenever the loop is (not under a condition of its own, `len() > 1` apart)")
     R.rule("R03.2", "the sort key of each such loop is a place of the element whose type has a derived Ord and which contains every "
                     "field the map key is computed from (ToKey::get_key), so the order is total on distinct entries")
     if not cx.ok:
@@ -496,14 +524,27 @@ def r03_1_2(q, R, cx):
             key = "loop:%s" % ("%s.%s" % o["map"] if o["map"] else "unknown-map")
             R.inst("R03.1", key, o["sorted"] is not None, sp=node.get("sp"),
                    detail="the loop walks data in IndexMap iteration order (= insertion order); it must be sorted before the first write",
-                   expect="<collected>.sort*(..) before the loop", got=("sorted by " + H.render(o["sorted"])[:80]) if o["sorted"] else "no sort")
+                   expect="<collected>.sort*(..) before the loop", got=("sorted by " + H.render(o["sorted"])[:80]) if o["sorted"] else (o.get("sort_problem") or "no sort"))
             if o["sorted"] is not None:
                 U.sort_key_total(q, R, "R03.2", cx, fn, o, key.replace("loop:", "sortkey:"))
             _complete_walk(R, fn, node, o, key.replace("loop:", "walk:"))
+    # no successful early exit before a row: `if <content test> { return Ok(()) }` / `continue` ahead of a write! drops the row (and
+    # everything after it) for some contents (seed C12-10 for the Enigma writer; the same shape here)
+    seen_exits = set()
+    for i, wr in enumerate(cx.wrows):
+        if i == 0 and not [c for c in wr["row"].ctx if c[0] != "after-exit"]:
+            key = "header"
+        else:
+            key = "%s:%s%s" % (_short_path(wr["path"]) or "<top>", wr["tag"], "(comment)" if wr["owner"] is not None else "")
+        ex = U.exits_before(wr["row"], seen_exits)
+        R.inst("R03.10", "written-unconditionally:%s" % key, not ex, sp=(wr["loops"][-1][0].get("sp") if wr["loops"] else cx.wb["sp"]),
+               expect="the row is written for every entry (comment rows: for every Some(comment)): no `return Ok(..)`/continue/break before it",
+               got=ex or "no early exit before the row",
+               detail="a row that is skipped for some content is missing after write -> read")
     # closures passed to iterator adaptors that write (for_each etc.) are rejected by the term extractor (unrecognised)
     R.floor("R03.1", 4)
     R.floor("R03.2", 4)
-    R.floor("R03.10", 4)
+    R.floor("R03.10", 4 + 9)
 
 
 # ------------------------------------------------------------------------------------------------ R03.3
@@ -1144,12 +1185,64 @@ def entry_table(q, R, label, b, map_fields, anchor):
     return all(results)
 
 
+def conditional_store(fn, stores, slot_id, stop=None):
+    """Ways a helper can finish successfully without having executed (one of) `stores` although the state of its Option slot
+    (parameter local `slot_id`) asks for it: [(text, span)].  Around and before each store only these are free: a test of the slot
+    itself (`if let Some(..) = slot`, `match slot`, `slot.is_some()`), and conditions whose other side is an error exit.  Any other
+    condition around the store, an enclosing loop/closure, or a successful `return` (`continue`/`break`) in a statement before it
+    makes the store depend on the content of the row.  With `stop` (an enclosing loop node) only the part inside that loop is looked
+    at: the store happens in every iteration."""
+    bad = []
+
+    def on_slot(e):
+        e = H.peel(e, refs=False)
+        if e.get("k") == "letexpr":
+            e = e["init"]
+        e, _ = H.negate_peel(e)
+        r = H.recv_root(e)
+        return bool(r) and r[0] == slot_id
+
+    def err_side(x):
+        return x is not None and (H.is_err_exit(x) or completes_only_with_err(x) in ("exit", "value"))
+    for st in stores:
+        cur = st
+        for a in fn.parents(st):
+            k = a.get("k")
+            if a is stop:
+                break
+            if k == "if" and a.get("cond") is not cur and not on_slot(a["cond"]):
+                other = a.get("else") if a["then"] is cur else a["then"]
+                if not err_side(other):
+                    bad.append(("stored only if `%s` is %s" % (H.render(a["cond"])[:70], "true" if a["then"] is cur else "false"), a.get("sp")))
+            elif k == "match" and a.get("scrut") is not cur:
+                mine = [arm for arm in a["arms"] if arm["body"] is cur or arm.get("guard") is cur]
+                others = [arm["body"] for arm in a["arms"] if arm not in mine]
+                if (not on_slot(a["scrut"]) or any("guard" in arm for arm in mine)) and not all(err_side(o) for o in others):
+                    bad.append(("stored only in one arm of `match %s`" % H.render(a["scrut"])[:60], a.get("sp")))
+            elif k in ("for", "loop", "closure"):
+                bad.append(("stored inside a %s" % k, a.get("sp")))
+            elif k == "block":
+                for s_ in a["stmts"]:
+                    if s_ is cur:
+                        break
+                    s0 = H.peel(s_, refs=False)
+                    if (s0.get("k") == "let" and "els" in s0 and "init" in s0 and on_slot(s0["init"])) or (s0.get("k") == "if" and on_slot(s0["cond"])):
+                        continue        # `let Some(x) = slot.pop() else { break };` / `if slot.is_some() { .. }`: a test of the slot itself
+                    for r in U.early_exits(s_):
+                        if True:
+                            conds = [H.render(c)[:60] for kind, c, pol in H.path_conditions(fn.root, r) if kind in ("if", "after-exit")]
+                            bad.append(("`%s` before the store%s" % (H.render(r)[:40], (" (when %s)" % " && ".join(conds)) if conds else ""), r.get("sp")))
+            cur = a
+    return bad
+
+
 def r03_6(q, R, cx):
     R.rule("R03.6", "mappings::add_child inserts only in the Vacant arm of map.entry(key), Occupied reaches only Err, the key is "
                     "child.get_node_info().get_key(); get_key = first name (+ descriptor / index); add_class/add_field/add_method/"
                     "add_parameter delegate to add_child on their own map (or carry the same entry table inline; any other direct insertion into "
                     "the map - insert, entry().or_insert - is reported); tiny_v2::read inserts only through them and propagates "
-                    "their error; a second comment for the same node is rejected")
+                    "their error; a second comment for the same node is rejected; every comment row that is accepted is stored "
+                    "(only the test of the javadoc slot and error exits stand before the store)")
     ac = q.fn("add_child", within="tree::mappings::add_child")
     if R.anchor("R03.6", "fn tree::mappings::add_child", ac):
         entry_table(q, R, "add_child", ac, map_fields=[], anchor=True)
@@ -1231,7 +1324,16 @@ def r03_6(q, R, cx):
             got["error when some"] = len(errs)
             ok = st == {"none"} and bool(errs)
         R.inst("R03.6", "comment-once", ok, sp=cm["sp"], expect="*javadoc = Some(..) only when javadoc is None, Err when it is Some", got=got)
-    R.floor("R03.6", 4 + 6 + 4 + 1 + 8 + 1)
+        # every comment row that is accepted is stored (seed C03-11: an early `return Ok(())` for an empty text loses a written comment)
+        if len(asg) == 1:
+            bad = conditional_store(U.Fn(q, cm), asg, H.param_ids(cm)[0])
+            R.inst("R03.6", "comment-stored", not bad, sp=(bad[0][1] if bad else cm["sp"]),
+                   expect="whenever the helper returns Ok for a node without comment, `*javadoc = Some(<text of the row>)` was executed: "
+                          "besides the test of the javadoc slot itself, only error exits stand between the entry of the helper and the store",
+                   got=[b[0] for b in bad] or "stored on every successful path",
+                   detail="the writer emits a `c` row for every Some(comment), also for an empty or blank text; a row that is accepted "
+                          "without being stored is lost by write -> read, and the next write differs from the first")
+    R.floor("R03.6", 4 + 6 + 4 + 1 + 8 + 2)
 
 
 # ------------------------------------------------------------------------------------------------ R03.7
@@ -1513,6 +1615,61 @@ def text_param(b):
     return ix[0] if len(ix) == 1 else None
 
 
+def tokeniser_call(q, rfn, tl, tp):
+    """The call(s) of the tokeniser `tl` (TinyLine::new) a reader function makes for each physical line, and the chains its text
+    argument (parameter `tp`) can evaluate to, rooted in the reader.  The call sits in the reader itself (in the closure given to
+    `.map(..)`), or in a function of the crate that the reader names as a function value in an iterator adaptor (`.map(to_tiny_line)`,
+    a nested `fn` item or a private helper: its parameter is the element of the adaptor's receiver) or calls directly (`helper(a, b)`:
+    its parameters are the arguments).  -> ([call nodes], [Chain])"""
+    def is_tl(n):
+        c = n.get("callee") or {}
+        return n.get("k") == "call" and tl["key"] in (c.get("key"), c.get("inst_key"))
+    calls = [n for n in H.walk(rfn.root) if is_tl(n)]
+    if calls or tp is None:
+        return calls, (value_leaves(rfn, calls[0]["args"][tp]) if len(calls) == 1 and tp is not None else [])
+    out_calls, chains = [], []
+    for n in H.walk(rfn.root):
+        k = n.get("k")
+        if k == "mcall":
+            for a in n.get("args") or []:
+                a = H.peel(a)
+                res = a.get("res") or {}
+                hb = q.by_key.get(res.get("inst_key") or res.get("key")) if a.get("k") == "path" and res.get("r") == "def" else None
+                if hb is None or not isinstance(hb.get("body"), dict) or len(hb.get("params") or []) != 1:
+                    continue
+                inner = [x for x in H.walk(hb["body"]) if is_tl(x)]
+                if not inner:
+                    continue
+                out_calls.extend(inner)
+                if len(inner) != 1:
+                    continue
+                hfn = U.Fn(q, hb, strict=True)
+                rc = rfn.trace(n["recv"])
+                rty = (H.peel(n["recv"]).get("tya") or H.peel(n["recv"]).get("ty") or "").lstrip("&")
+                if rty.startswith("mut "):
+                    rty = rty[4:]
+                hop = ("some",) if rty.startswith("core::option::Option<") else None if rty.startswith("core::result::Result<") else ("elem",)
+                for ch in value_leaves(hfn, inner[0]["args"][tp]):
+                    if ch.root[0] == "param" and ch.root[1] == 0 and ch.root[4] == hb["key"]:
+                        chains.append(U.Chain(rc.root, rc.hops + ([hop] if hop else []) + ch.hops))
+                    else:
+                        chains.append(ch)
+        elif k == "call":
+            c = n.get("callee") or {}
+            hb = q.by_key.get(c.get("inst_key") or c.get("key"))
+            if hb is None or not isinstance(hb.get("body"), dict) or hb["key"] in (rfn.body["key"], tl["key"]) \
+                    or len(hb.get("params") or []) != len(n.get("args") or []):
+                continue
+            inner = [x for x in H.walk(hb["body"]) if is_tl(x)]
+            if not inner:
+                continue
+            out_calls.extend(inner)
+            if len(inner) == 1:
+                hfn = U.Fn(q, hb, subst={i: (rfn, a) for i, a in enumerate(n["args"])}, strict=True)
+                chains.extend(value_leaves(hfn, inner[0]["args"][tp]))
+    return out_calls, chains
+
+
 def r03_9(q, R, cx, spec):
     R.rule("R03.9", "verbatim transport: on the way physical line -> TinyLine::new -> next/end/into_names/into_namespaces -> field of "
                     "the model, and model field -> hole of the writer's template, the text of a cell passes only through selections "
@@ -1546,9 +1703,8 @@ def r03_9(q, R, cx, spec):
     tl = q.fn("new", impl_ty="TinyLine")
     if R.anchor("R03.9", "fn TinyLine::new", tl) and cx.ok:
         tp = text_param(tl)
-        calls = [n for n in H.walk(cx.rfn.root) if n.get("k") == "call" and (n.get("callee") or {}).get("key") == tl["key"]]
+        calls, chains = tokeniser_call(q, cx.rfn, tl, tp)
         if R.anchor("R03.9", "call of TinyLine::new(.., <line>) in tiny_v2::read", len(calls) == 1 and tp is not None, sp=cx.rb["sp"]):
-            chains = value_leaves(cx.rfn, calls[0]["args"][tp])
             lines = [h for ch in chains for h in ch.hops if h[0] == "call" and h[1] == "lines"]
             report("verbatim:read:line", chains, lambda ch: ch.root[0] == "param", LINE_SOURCE, calls[0].get("sp"),
                    "TinyLine::new(n, &<item of BufRead::lines()>)", extra_ok=len(lines) == 1 and "BufRead::lines" in (lines[0][3] or ""))
